@@ -4,7 +4,8 @@ import hashlib
 import logging
 import sys
 
-sys.path.insert(0, '/repo')
+import os
+sys.path.insert(0, os.environ.get('VERIF_REPO', '/repo'))
 import z3
 
 from . import ct, dt, refsem, symx
